@@ -1036,14 +1036,16 @@ class C05(Check):
                 ctx.disagree('lexeme list: expected tokens (python generator vs Lean expectedAll)',
                              {'words': words, 'text': enc(text), 'doc': doc}, repr(want), repr(mexp))
                 continue
-            try:
-                got = [(t[0], t[1]) for t in impl_tokens(text, False, doc)]
-            except Exception as e:   # noqa
-                ctx.violate('tokenising any text terminates', {'text': enc(text), 'repr': repr(text)}, repr(e))
-                continue
-            if got != mexp:
-                ctx.violate(clause, {'text': enc(text), 'full': False, 'doc': doc, 'repr': repr(text)},
-                            'lexemes %r: expected %r, got %r' % (words, mexp, got))
+            for full in (False, True):      # lexeme_separation_all / lexeme_separation_all_fullsheet
+                try:
+                    got = [(t[0], t[1]) for t in impl_tokens(text, full, doc)]
+                except Exception as e:   # noqa
+                    ctx.violate('tokenising any text terminates', {'text': enc(text), 'repr': repr(text)}, repr(e))
+                    continue
+                want2 = mexp + [('EOF', '')] if full else mexp
+                if got != want2:
+                    ctx.violate(clause, {'text': enc(text), 'full': full, 'doComments': doc, 'repr': repr(text)},
+                                'lexemes %r: expected %r, got %r' % (words, want2, got))
 
     # -- the generator with push-back (Model/TokPush.lean) ----------------------------------------------------
     def corr_push(self, ctx):
